@@ -193,13 +193,20 @@ fn describe_res(r: &Res) -> String {
 }
 
 fn check(c: &Case, ctx: &Ctx) -> Outcome {
-    let (k, anc, samples) = materialise(c);
+    let (k, anc, mut samples) = materialise(c);
+    // in a quarter of the larger builds the very same entry (name and file) is listed a second time, at a
+    // quarter, half or three quarters of the list (where the parallel build splits its input)
+    let repeat_at = if c.cmd == Cmd::Build && samples.len() >= 12 && c.rc_mask % 4 == 1 { Some(samples.len() * (1 + (c.rc_mask as usize / 4) % 3) / 4) } else { None };
+    if let Some(at) = repeat_at {
+        samples[at] = samples[2].clone();
+    }
     let dir = ctx.case_dir();
     let r: Result<(), Outcome> = (|| {
         let mut list = String::new();
         for (i, (name, recs)) in samples.iter().enumerate() {
             cli::write_fasta_auto(&dir.join(format!("smp{i}.fa")), recs, None);
-            list += &format!("{name}\tsmp{i}.fa\n");
+            let fi = if repeat_at == Some(i) { 2 } else { i };
+            list += &format!("{name}\tsmp{fi}.fa\n");
         }
         std::fs::write(dir.join("list.txt"), list).unwrap();
         if c.cmd == Cmd::BuildFastq {
